@@ -56,6 +56,7 @@ func main() {
 }
 
 type checkFlags struct {
+	noreplay                              bool
 	prop, tier, fn, repo, verif, keep, only string
 	timeout                               int
 	verbose                               bool
@@ -76,6 +77,7 @@ func parseFlags(args []string) *checkFlags {
 	fs.IntVar(&cf.timeout, "timeout", 0, "per-obligation timeout (s)")
 	fs.IntVar(&cf.workers, "j", 0, "parallel obligations")
 	fs.BoolVar(&cf.verbose, "v", false, "verbose")
+	fs.BoolVar(&cf.noreplay, "noreplay", false, "do not search for a replayable input when an obligation fails")
 	fs.IntVar(&cf.refuteK, "refute", 0, "debug: generate the bounded counterexample-search VC with this unroll bound")
 	fs.Parse(args)
 	if cf.timeout == 0 {
